@@ -838,7 +838,7 @@ Section Runs.
     assert (Hen : fst (fst (srv_pre (w_srv w) e)) = enabled (w_srv w) e).
     { unfold srv_pre. destruct e; try (destruct (enabled (w_srv w) _); reflexivity). }
     destruct (srv_pre (w_srv w) e) as [[en srv1] ins]. cbn [fst snd] in *. subst en.
-    cbn [o_nicks o_cfg o_me].
+    cbn [o_nicks o_cfg o_me o_cfg2 o_conn].
     assert (Esrv : srv_post srv1 (filter is_nick_line outs) = w_srv w1).
     { rewrite Hsrv. unfold srv_post. now rewrite nick_requests_filter. }
     rewrite Esrv, <- Hok.
@@ -854,6 +854,13 @@ Section Runs.
     assert (Em : exists m, me_nick_of (w_cli w1) = Some m).
     { unfold me_nick_of. destruct (snd (do_Me (w_cli w1))); [cbn; eauto|contradiction]. }
     destruct Em as (m & Em). rewrite !Em. cbn [option_map andb].
+    assert (Ec2 : exists c2, cfg_me (fst (do_Me (w_cli w1))) = Some c2).
+    { assert (H : nn (w_cli w1)) by (unfold nn; rewrite Ec; discriminate).
+      apply do_Me_nn in H as [H _]. unfold nn in H. destruct (cfg_me (fst (do_Me (w_cli w1)))); [eauto|contradiction]. }
+    destruct Ec2 as (c2 & Ec2). rewrite Ec2. cbn [option_map is_nil].
+    assert (Econn : existsb (fun b : bool => b) (map (fun _ : cinput => false) (filter is_welcome_in ins)) = false).
+    { induction (filter is_welcome_in ins) as [|x l IHl]; [reflexivity|exact IHl]. }
+    rewrite Econn. cbn [negb andb].
     (* tracks the server *)
     assert (Ht : (if w_ok w1 && sv_reg (w_srv w1) then opt_beq' (Some m) (Some (sv_nick (w_srv w1))) else true) = true).
     { destruct (w_ok w1 && sv_reg (w_srv w1)) eqn:E; [|reflexivity]. apply andb_true_iff in E as [E1 E2].
